@@ -1,8 +1,12 @@
 (* Struct layer: the member loop of deserialize reads back what the member loop of serialize wrote, and size agrees with the
-   number of bytes, for member lists made of the member kinds of `mkind` below.
-   Generic in the codecs of named types (hypotheses sub_rt / sub_pos) so that it can be applied level by level. *)
+   number of bytes, for member lists made of the member kinds of `mkind` below (`classify` computes the kind from the schema alone;
+   `classify_facts` is the only place where it is unfolded).
+   Per member: member_ser_inv (what serialize wrote), member_step (deserialize_field reads it back), member_size_ok, member_size_nonneg.
+   Per member list: loop_rt (continuation form, queue of pending union arms untouched), the union lemmas (arm_first: dummy read and
+   temporary buffer; arms_queue; drain_rt), fields_rt (ordinary lists, or one union block at the front), size_fields_ok / _nonneg.
+   Generic in the codecs of named types (hypotheses sub_rt, sub_pos, alias_enc, alias_dec) so that it can be applied level by level. *)
 From Symv Require Import Base.Bytes Base.PyOps Base.BytesLemmas Cats.Layout Cats.LayoutProofs Cats.ArrayProofs Cats.LayoutLaws.
-From Coq Require Import Lia ZifyBool.
+From Coq Require Import Lia ZifyBool Permutation.
 Open Scope string_scope.
 Open Scope list_scope.
 Open Scope Z_scope.
@@ -65,7 +69,9 @@ Inductive mkind :=
 | MkByteSize (i : intty) (g : field)                       (* byte size (padding included) of the byte-constrained array g *)
 | MkVarSized (a : array) (n : string)                      (* aligned variable-size array occupying n bytes *)
 | MkFillPlain (a : array)                                  (* unaligned array filling the rest of the window *)
-| MkFillVar (a : array).                                   (* aligned variable-size array filling the rest of the window *)
+| MkFillVar (a : array)                                    (* aligned variable-size array filling the rest of the window *)
+| MkArm (t : string) (ln : string) (y : Z) (i : intty) (ys : list Z).
+    (* arm of a union: integer alias member present iff the LATER enum member ln equals y; ys = constants of all arms on ln *)
 
 (* an unconditional computed (@sizeref) integer member measuring a named member *)
 Definition computed_info (cf : field) : option (intty * string * string * Z) :=
@@ -90,6 +96,30 @@ Definition computed_info (cf : field) : option (intty * string * string * Z) :=
 
 Definition cond_ne (c : conditional) : option Z :=      (* `<n> not equals <link>` *)
   match c_value c with CvNum y => if String.eqb (c_op c) "not equals" then Some y else None | _ => None end.
+
+(* `X = T if NAME equals link` with T an unsigned integer alias and link an enum member: (T, link, value of NAME, integer type of T) *)
+Definition arm_info (f : field) : option (string * string * Z * intty) :=
+  match f_cond f, f_type f with
+  | Some c, FName t =>
+    match find_field allfs (c_link c), c_value c, lookup tm t with
+    | Some cf, CvName nm, Some (DAlias _ (LInt i) _) =>
+      match f_type cf, cond_kind tm cf with
+      | FName _, CkEnum vs _ =>
+        match enum_const vs nm with
+        | Some y =>
+          if String.eqb (c_op c) "equals" && negb (is_reserved f) && is_none (bound_field allfs f)
+             && match size_fields_of allfs f with [] => true | _ => false end && it_unsigned i && (0 <? it_size i)
+          then Some (t, c_link c, y, i) else None
+        | None => None
+        end
+      | _, _ => None
+      end
+    | _, _, _ => None
+    end
+  | _, _ => None
+  end.
+Definition arm_consts (ln : string) : list Z :=
+  flat_map (fun g => match arm_info g with Some (_, ln', y, _) => if String.eqb ln' ln then [y] else [] | None => [] end) allfs.
 
 Definition classify (f : field) : option mkind :=
   match f_cond f with
@@ -154,6 +184,9 @@ Definition classify (f : field) : option mkind :=
   | Some c =>
     match f_type f with
     | FName t =>
+      match arm_info f with
+      | Some (t', ln, y, i) => Some (MkArm t' ln y i (arm_consts ln))
+      | None =>
       match find_field allfs (c_link c), cond_ne c with
       | Some cf, Some 0 =>
         match computed_info cf with
@@ -164,6 +197,7 @@ Definition classify (f : field) : option mkind :=
         | None => None
         end
       | _, _ => None
+      end
       end
     | FArray a =>
       match find_field allfs (c_link c), cond_ne c, a_size a with
@@ -229,7 +263,29 @@ Definition kind_facts (f : field) (k : mkind) : Prop :=
                      is_variable_size tm a = false /\ a_byte_constrained a = false /\ alignment_of a = 0 /\ a_sort_key a = None
   | MkFillVar a => f_cond f = None /\ bound_field allfs f = None /\ f_type f = FArray a /\ a_size a = SzFill /\ is_byte_array a = false /\
                    is_variable_size tm a = true /\ a_byte_constrained a = false /\ 0 < alignment_of a
+  | MkArm t ln y i ys => arm_info f = Some (t, ln, y, i) /\ ys = arm_consts ln
   end.
+
+Definition arm_facts (f : field) (t ln : string) (y : Z) (i : intty) : Prop :=
+  f_type f = FName t /\ is_reserved f = false /\ bound_field allfs f = None /\ size_fields_of allfs f = [] /\
+  it_unsigned i = true /\ 0 < it_size i /\ (exists nm cm, lookup tm t = Some (DAlias nm (LInt i) cm)) /\
+  exists c cf et vs bw nm, f_cond f = Some c /\ c_link c = ln /\ c_op c = "equals" /\ c_value c = CvName nm /\
+                           find_field allfs ln = Some cf /\ f_type cf = FName et /\ cond_kind tm cf = CkEnum vs bw /\ enum_const vs nm = Some y.
+
+Lemma arm_info_facts f t ln y i : arm_info f = Some (t, ln, y, i) -> arm_facts f t ln y i.
+Proof.
+  unfold arm_info, arm_facts. destruct (f_cond f) as [c|]; [|discriminate]. destruct (f_type f) as [|t0|] eqn:Hft; try discriminate.
+  destruct (find_field allfs (c_link c)) as [cf|] eqn:Hcf; [|discriminate]. destruct (c_value c) as [|nm] eqn:Hcv; [discriminate|].
+  destruct (lookup tm t0) as [[anm [i0|] cm| |]|] eqn:Hl; try discriminate.
+  destruct (f_type cf) as [|et|] eqn:Hcft; try discriminate. destruct (cond_kind tm cf) as [|vs bw|] eqn:Hck; try discriminate.
+  destruct (enum_const vs nm) as [y0|] eqn:Hec; [|discriminate].
+  destruct (_ && _) eqn:Hc; [|discriminate]. intros H; injection H as <- <- <- <-.
+  repeat (apply Bool.andb_true_iff in Hc as [Hc ?]).
+  repeat split; try assumption; try reflexivity; try lia; try (now apply Bool.negb_true_iff); try (now apply is_none_eq).
+  - destruct (size_fields_of allfs f); [reflexivity|discriminate].
+  - eauto.
+  - exists c, cf, et, vs, bw, nm. repeat split; try assumption; try reflexivity. now apply String.eqb_eq.
+Qed.
 
 Lemma find_field_name fs n g : find_field fs n = Some g -> f_name g = n.
 Proof. unfold find_field. intros H. apply find_some in H as [_ H]. now apply String.eqb_eq in H. Qed.
@@ -245,7 +301,9 @@ Proof.
   unfold classify. destruct (f_cond f) as [c|] eqn:Hcond.
   - (* conditional members *)
     destruct (f_type f) as [j|t|a] eqn:Hft; [discriminate| |].
-    + destruct (find_field allfs (c_link c)) as [cf|] eqn:Hcf; [|discriminate].
+    + destruct (arm_info f) as [[[[t' ln] y] i]|] eqn:Harm.
+      { intros H; injection H as <-. cbn [kind_facts]. now split. }
+      destruct (find_field allfs (c_link c)) as [cf|] eqn:Hcf; [|discriminate].
       destruct (cond_ne c) as [[| |]|] eqn:Hne; try discriminate.
       destruct (computed_info cf) as [[[[i gn] t'] d]|] eqn:Hci; [|discriminate].
       destruct (_ && _) eqn:Hc; [|discriminate]. intros H; injection H as <-.
@@ -315,7 +373,7 @@ Proof.
            cbn [kind_facts]. repeat split; try assumption; try reflexivity. lia.
 Qed.
 
-Lemma classify_cond f k : classify f = Some k -> match k with MkCondNamed _ _ | MkCondBytes _ _ => True | _ => f_cond f = None end.
+Lemma classify_cond f k : classify f = Some k -> match k with MkCondNamed _ _ | MkCondBytes _ _ | MkArm _ _ _ _ _ => True | _ => f_cond f = None end.
 Proof.
   intros H. apply classify_facts in H. destruct k; cbn [kind_facts] in H; try exact I; try tauto.
   destruct H as (_ & H). unfold computed_facts in H. tauto.
@@ -343,6 +401,9 @@ Definition member_typed (self : value) (f : field) : Prop :=
   | Some (MkCondNamed t _) => exists v, vget self (f_name f) = Some v /\ opt_struct_of t v
   | Some (MkCondBytes _ y) =>
     vget self (f_name f) = Some VNull \/ (exists b, vget self (f_name f) = Some (VBytes b) /\ Z.of_nat (length b) <> y)
+  | Some (MkArm t ln y _ ys) =>
+    exists v z, vget self (f_name f) = Some v /\ vget self ln = Some (VInt z) /\ In z ys /\
+                ((z = y /\ (exists x, v = VInt x) /\ adm_t t v) \/ (z <> y /\ v = VNull))
   | None => False
   end.
 
@@ -351,7 +412,7 @@ Definition env_entry (self : value) (f : field) : option value :=
   match classify f with
   | Some (MkInt _) | Some (MkNamed _) | Some (MkBytes _) | Some (MkArray _ _)
   | Some (MkNamedSized _ _) | Some (MkCondNamed _ _) | Some (MkCondBytes _ _)
-  | Some (MkVarSized _ _) | Some (MkFillPlain _) | Some (MkFillVar _) => vget self (f_name f)
+  | Some (MkVarSized _ _) | Some (MkFillPlain _) | Some (MkFillVar _) | Some (MkArm _ _ _ _ _) => vget self (f_name f)
   | Some (MkByteSize _ g) => match member_size OP tm R self g with Ok z => Some (VInt z) | _ => None end
   | Some (MkCount _ g) =>
     match vget self (f_name g) with
@@ -395,6 +456,7 @@ Definition deps_ok (seen : list field) (proc : list string) (f : field) : Prop :
   | Some (MkNamedSized t sfn) => exists c i, In c seen /\ f_name c = sfn /\ classify c = Some (MkSizeof i (f_name f) t)
   | Some (MkCondNamed t cfn) => (exists c i d, In c seen /\ f_name c = cfn /\ classify c = Some (MkComputed i (f_name f) t d)) /\ In cfn proc
   | Some (MkVarSized _ n) => exists c i, In c seen /\ f_name c = n /\ classify c = Some (MkByteSize i f)
+  | Some (MkArm _ _ _ _ _) => False      (* union arms are not read by the ordinary member step (see union_rt) *)
   | _ => True
   end.
 
@@ -447,7 +509,7 @@ Qed.
 Definition int_written (self : value) (k : mkind) : result Z :=
   match k with
   | MkInt _ | MkNamed _ | MkBytes _ | MkArray _ _ | MkNamedSized _ _ | MkCondNamed _ _ | MkCondBytes _ _
-  | MkVarSized _ _ | MkFillPlain _ | MkFillVar _ => unsupported
+  | MkVarSized _ _ | MkFillPlain _ | MkFillVar _ | MkArm _ _ _ _ _ => unsupported
   | MkByteSize _ g => member_size OP tm R self g
   | MkReserved _ n => Ok n
   | MkCount _ g =>
@@ -573,16 +635,37 @@ Proof.
   - split; [do 2 f_equal; lia | intros b' Hb'; now injection Hb' as <-].
 Qed.
 
+Lemma arm_cond_self self f t ln y i ys z : classify f = Some (MkArm t ln y i ys) -> vget self ln = Some (VInt z) ->
+  cond_self tm R allfs self f = Ok (y =? z).
+Proof.
+  intros Hk Hz. pose proof (classify_facts f _ Hk) as F. cbn [kind_facts] in F. destruct F as [F _]. apply arm_info_facts in F.
+  destruct F as (Hft & _ & _ & _ & _ & _ & _ & c & cf & et & vs & bw & nm & Hc & Hl & Hop & Hcv & Hcf & Hcft & Hck & Hec).
+  unfold cond_self. rewrite Hc, Hft, Hl, Hcf, Hck. unfold cond_yoda. rewrite Hcv, Hec.
+  unfold cond_operand_self, is_computed, f_sizeref. rewrite Hcft, (find_field_name allfs ln cf Hcf), Hz. cbn [bind].
+  unfold cond_eval. rewrite Hop. reflexivity.
+Qed.
+
+Lemma arm_cond_local e f t ln y i ys z : classify f = Some (MkArm t ln y i ys) -> eget e ln = Some (VInt z) ->
+  cond_local tm allfs e f = Ok (y =? z).
+Proof.
+  intros Hk Hz. pose proof (classify_facts f _ Hk) as F. cbn [kind_facts] in F. destruct F as [F _]. apply arm_info_facts in F.
+  destruct F as (Hft & _ & _ & _ & _ & _ & _ & c & cf & et & vs & bw & nm & Hc & Hl & Hop & Hcv & Hcf & Hcft & Hck & Hec).
+  unfold cond_local. rewrite Hc, Hl, Hcf, Hck. unfold cond_yoda. rewrite Hcv, Hec, Hz.
+  unfold cond_eval. rewrite Hop. reflexivity.
+Qed.
+
 (* ---- what a successful serialisation of a typed member looks like ---- *)
 Inductive ser_shape (self : value) (f : field) (bf : bytes) : Prop :=
 | SsInt i z : f_type f = FInt i -> f_cond f = None -> 0 <= it_size i -> (is_reserved f = false \/ f_value f = VNum z) ->
     py_to_bytes (Z.to_nat (it_size i)) (negb (it_unsigned i)) z = Ok bf -> env_entry self f = Some (VInt z) -> ser_shape self f bf
 | SsNamed t v : f_type f = FName t -> cond_self tm R allfs self f = Ok true -> vget self (f_name f) = Some v -> v <> VNull -> adm_t t v ->
     enc_t R t v = Ok bf -> env_entry self f = Some v ->
-    (classify f = Some (MkNamed t) \/ (exists sfn, classify f = Some (MkNamedSized t sfn)) \/ (exists cfn, classify f = Some (MkCondNamed t cfn))) ->
+    (classify f = Some (MkNamed t) \/ (exists sfn, classify f = Some (MkNamedSized t sfn)) \/ (exists cfn, classify f = Some (MkCondNamed t cfn)) \/
+     (exists ln y i ys, classify f = Some (MkArm t ln y i ys))) ->
     ser_shape self f bf
 | SsAbsent : cond_self tm R allfs self f = Ok false -> bf = [] -> vget self (f_name f) = Some VNull -> env_entry self f = Some VNull ->
-    ((exists t cfn, classify f = Some (MkCondNamed t cfn)) \/ (exists n y, classify f = Some (MkCondBytes n y))) -> ser_shape self f bf
+    ((exists t cfn, classify f = Some (MkCondNamed t cfn)) \/ (exists n y, classify f = Some (MkCondBytes n y)) \/
+     (exists t ln y i ys, classify f = Some (MkArm t ln y i ys))) -> ser_shape self f bf
 | SsBytes a n : f_type f = FArray a -> is_byte_array a = true -> a_size a = SzName n -> vget self (f_name f) = Some (VBytes bf) ->
     env_entry self f = Some (VBytes bf) -> cond_self tm R allfs self f = Ok (match bf with [] => false | _ => true end) \/ cond_self tm R allfs self f = Ok true ->
     (classify f = Some (MkBytes n) \/ exists y, classify f = Some (MkCondBytes n y)) -> ser_shape self f bf
@@ -656,14 +739,14 @@ Proof.
       { rewrite Hcs in Hser |- *. destruct v; try discriminate. destruct (size_t R t (VStruct cls fs)); cbn [bind] in Hser |- *; [reflexivity|discriminate|discriminate]. }
       assert (Hs : ser_field total self false f = enc_t R t v) by (eapply conditional_present; eassumption).
       unfold serialize_field in Hs. cbn [andb] in Hs. rewrite Hs in Hser.
-      apply (SsNamed self f bf t v); try assumption; [unfold env_entry; now rewrite Hk | right; right; now exists cfn].
+      apply (SsNamed self f bf t v); try assumption; [unfold env_entry; now rewrite Hk | right; right; left; now exists cfn].
   - (* MkCondBytes *)
     destruct F as (Hb & c & cf & a & j & Hc & Hl & Hcv & Hop & Hcf & Hcft & Hft & Has & Hba).
     assert (Hcs : cond_self tm R allfs self f = match vget self (f_name f) with Some v => Ok (truthy v) | None => Crash "AttributeError" end)
       by (unfold cond_self; now rewrite Hc, Hft).
     destruct Hty as [Hv|(b & Hv & Hne)]; rewrite Hv in Hcs; cbn [truthy] in Hcs.
     + rewrite Hcs in Hser. cbn [bind negb] in Hser. injection Hser as <-.
-      apply SsAbsent; try assumption; try reflexivity; [unfold env_entry; now rewrite Hk | right; now exists n, y].
+      apply SsAbsent; try assumption; try reflexivity; [unfold env_entry; now rewrite Hk | right; left; now exists n, y].
     + assert (bf = b).
       { rewrite Hcs in Hser. cbn [bind] in Hser. destruct b as [|x b]; cbn [negb] in Hser; [now injection Hser as <-|].
         rewrite Hb, Hft in Hser. unfold member_value in Hser. rewrite Hv in Hser. cbn [bind] in Hser. rewrite Hba in Hser. now injection Hser as <-. }
@@ -687,6 +770,16 @@ Proof.
     cbn [bind] in Hser. rewrite Hba, Hvs in Hser.
     destruct (elem_name a) as [et|] eqn:Het; [|contradiction].
     apply (SsVarArr self f bf a l et); try assumption; [unfold env_entry; now rewrite Hk | now right].
+  - (* MkArm *)
+    destruct Hty as (v & z & Hv & Hz & Hin & Harm). pose proof (arm_cond_self self f t ln y i ys z Hk Hz) as Hcs.
+    destruct F as [F _]. apply arm_info_facts in F. destruct F as (Hft & Hres & Hb & Hsf & _).
+    destruct Harm as [(-> & (x & ->) & Hadm)|(Hne & ->)].
+    + rewrite Z.eqb_refl in Hcs.
+      assert (Hs : ser_field total self false f = enc_t R t (VInt x)) by (eapply conditional_present; try eassumption; discriminate).
+      unfold serialize_field in Hs. cbn [andb] in Hs. rewrite Hs in Hser.
+      apply (SsNamed self f bf t (VInt x)); try assumption; [discriminate | unfold env_entry; now rewrite Hk | right; right; right; now exists ln, y, i, ys].
+    + replace (y =? z) with false in Hcs by lia. rewrite Hcs in Hser. cbn [bind negb] in Hser. injection Hser as <-.
+      apply SsAbsent; try assumption; try reflexivity; [unfold env_entry; now rewrite Hk | right; right; now exists t, ln, y, i, ys].
 Qed.
 
 (* ---- decoding of the member shapes ---- *)
@@ -750,13 +843,15 @@ Lemma cond_local_shape seen proc e self f bf : env_ok seen e self -> member_type
 Proof.
   intros Henv Hty Hdeps Hsh. destruct Hsh as [i z Hft Hc|t v Hft Hcs Hv Hnn Hadm Henc He Hk| Hcs Hbf Hv He Hk|a n Hft Hba Has Hv He Hcs Hk|a n l et Hk Hft Hc|a l et Hft Hc|a l et Hk Hft Hc].
   - right. split; [exact Hc | now apply cond_local_none].
-  - destruct Hk as [Hk|[(sfn & Hk)|(cfn & Hk)]].
+  - destruct Hk as [Hk|[(sfn & Hk)|[(cfn & Hk)|(ln & y & i & ys & Hk)]]].
+    4:{ exfalso. unfold deps_ok in Hdeps. now rewrite Hk in Hdeps. }
     + right. pose proof (classify_facts f _ Hk) as F. cbn [kind_facts] in F. destruct F as (Hc & _). split; [exact Hc | now apply cond_local_none].
     + right. pose proof (classify_facts f _ Hk) as F. cbn [kind_facts] in F. destruct F as (Hc & _). split; [exact Hc | now apply cond_local_none].
     + left. rewrite Hv. unfold member_typed in Hty. rewrite Hk, Hv in Hty. destruct Hty as (v' & Hv' & Hos). injection Hv' as <-.
       rewrite (cond_named_local seen proc e self f t cfn v Hk Henv Hdeps Hv Hos); [reflexivity|].
       right. destruct (sub_rt t v bf [] Hadm Henc) as (_ & Hs & _). eauto.
-  - left. destruct Hk as [(t & cfn & Hk)|(n & y & Hk)].
+  - left. destruct Hk as [(t & cfn & Hk)|[(n & y & Hk)|(t & ln & y & i & ys & Hk)]].
+    3:{ exfalso. unfold deps_ok in Hdeps. now rewrite Hk in Hdeps. }
     + unfold member_typed in Hty. rewrite Hk, Hv in Hty. destruct Hty as (v' & Hv' & Hos). injection Hv' as <-.
       rewrite Hv. apply (cond_named_local seen proc e self f t cfn VNull Hk Henv Hdeps Hv Hos). now left.
     + exact (proj1 (cond_bytes_local seen proc e self f n y Hk Henv Hdeps Hty)).
@@ -784,7 +879,8 @@ Proof.
     assert (Hcl' : cond_local tm allfs e f = Ok true) by (destruct Hcl as [Hcl|[_ Hcl]]; [rewrite Hcl, Hv; now destruct v | exact Hcl]).
     rewrite Hcl'. cbn [bind].
     assert (Hload : load e f (bf ++ rest) = Ok (v, rest)).
-    { destruct Hk as [Hk|[(sfn & Hk)|(cfn & Hk)]]; pose proof (classify_facts f _ Hk) as F; cbn [kind_facts] in F.
+    { destruct Hk as [Hk|[(sfn & Hk)|[(cfn & Hk)|(ln & y & i & ys & Hk)]]]; [| | |exfalso; unfold deps_ok in Hdeps; now rewrite Hk in Hdeps];
+        pose proof (classify_facts f _ Hk) as F; cbn [kind_facts] in F.
       - destruct F as (_ & _ & _ & _ & Hsf). apply (named_load e f t v bf rest rest Hft Hadm Henc). now rewrite Hsf.
       - destruct F as (_ & _ & _ & _ & sf & Hsf & Hsfn). apply (named_load e f t v bf rest [] Hft Hadm Henc). rewrite Hsf.
         unfold deps_ok in Hdeps. rewrite Hk in Hdeps. destruct Hdeps as (c & ci & Hin & Hcn & Hck).
@@ -796,7 +892,8 @@ Proof.
   - exists VNull. split; [|now rewrite He]. subst bf. unfold deserialize_field.
     destruct Hcl as [Hcl|[Hc _]].
     + rewrite Hcl, Hv. reflexivity.
-    + exfalso. destruct Hk as [(t & cfn & Hk)|(n & y & Hk)]; pose proof (classify_facts f _ Hk) as F; cbn [kind_facts] in F.
+    + exfalso. destruct Hk as [(t & cfn & Hk)|[(n & y & Hk)|(t & ln & y & i & ys & Hk)]]; [| |unfold deps_ok in Hdeps; now rewrite Hk in Hdeps];
+        pose proof (classify_facts f _ Hk) as F; cbn [kind_facts] in F.
       * destruct F as (_ & _ & _ & _ & c & ? & ? & ? & Hc' & _). congruence.
       * destruct F as (_ & c & ? & ? & ? & Hc' & _). congruence.
   - exists (VBytes bf). split; [|now rewrite He]. unfold deserialize_field.
@@ -979,6 +1076,11 @@ Proof.
     apply (array_size_nonneg (elem_size R a0) (adm_t et) (alignment_of a0) (skip_last a0)) with (l := l); [| |exact Hel|exact H].
     + intros e z He Hz. unfold elem_size in Hz. rewrite Het in Hz. exact (sub_pos et e z He Hz).
     + right. split; [exact Hal|]. intros x Hx. exact (proj1 (align_spec x _ Hx Hal)).
+  - destruct Hty as (v & z & Hv & Hz & Hin & Harm). rewrite (arm_cond_self self f t ln y i ys z Hk Hz) in H.
+    destruct F as [F _]. apply arm_info_facts in F. destruct F as (Hft & _). split; [|contradiction].
+    destruct Harm as [(-> & (x & ->) & Hadm)|(Hne & ->)].
+    + rewrite Z.eqb_refl in H. cbn [bind] in H. pose proof (Hnamed t _ Hft Hv ltac:(discriminate) Hadm H). lia.
+    + replace (y =? z) with false in H by lia. cbn [bind] in H. injection H as <-. lia.
 Qed.
 
 (* ---- the member loops ---- *)
@@ -986,11 +1088,16 @@ Inductive ordered : list field -> list string -> list field -> Prop :=
 | ord_nil seen proc : ordered seen proc []
 | ord_cons seen proc f r : deps_ok seen proc f -> (fill_member f -> r = []) -> ordered (seen ++ [f]) (f_name f :: proc) r -> ordered seen proc (f :: r).
 
-Lemma des_loop_step f r proc e buf :
+(* no member of fs is the condition member a queued union arm waits for *)
+Definition queue_quiet (queued : list (string * list field)) (fs : list field) : Prop :=
+  forall f, In f fs -> find (fun q => String.eqb (fst q) (f_name f)) queued = None.
+
+Lemma des_loop_step f r proc queued temps e buf :
   match f_cond f with Some c => existsb (String.eqb (c_link c)) proc = true | None => True end ->
-  des_loop (f :: r) proc [] [] e buf = bind (des_field e f buf) (fun x => des_loop r (f_name f :: proc) [] [] (fst x) (snd x)).
+  find (fun q => String.eqb (fst q) (f_name f)) queued = None ->
+  des_loop (f :: r) proc queued temps e buf = bind (des_field e f buf) (fun x => des_loop r (f_name f :: proc) queued temps (fst x) (snd x)).
 Proof.
-  intros H. cbn [deserialize_loop]. destruct (f_cond f) as [c|]; [rewrite H|]; destruct (des_field e f buf) as [x| |]; reflexivity.
+  intros H Hq. cbn [deserialize_loop]. rewrite Hq. destruct (f_cond f) as [c|]; [rewrite H|]; destruct (des_field e f buf) as [x| |]; reflexivity.
 Qed.
 
 Lemma no_wait seen proc self f : member_typed self f -> deps_ok seen proc f ->
@@ -1003,18 +1110,21 @@ Proof.
     apply existsb_exists. exists cfn. split; [exact Hin | rewrite Hl; apply String.eqb_refl].
   - destruct F as (_ & c & cf & a & j & Hfc & Hl & _). rewrite Hfc. destruct Hdeps as [_ Hin].
     apply existsb_exists. exists n. split; [exact Hin | rewrite Hl; apply String.eqb_refl].
+  - contradiction.
 Qed.
 
-Lemma loop_rt : forall fs seen proc e self total b rest,
+(* continuation form: the members of fs are read back and the loop goes on with whatever follows (post), queue untouched *)
+Lemma loop_rt : forall fs seen proc queued temps e self total b rest post,
   (forall f, In f fs -> not_size_member f) ->
   ordered seen proc fs -> NoDup (map f_name (seen ++ fs)) ->
   env_ok seen e self -> (forall f, In f fs -> member_typed self f) ->
-  (rest = [] \/ forall f, In f fs -> ~ fill_member f) ->
+  (rest = [] \/ forall f, In f fs -> ~ fill_member f) -> queue_quiet queued fs ->
   ser_fields total self false fs = Ok b ->
-  exists e', des_loop fs proc [] [] e (b ++ rest) = Ok (e', rest) /\ env_ok (seen ++ fs) e' self /\
+  exists e', des_loop (fs ++ post) proc queued temps e (b ++ rest) = des_loop post (rev (map f_name fs) ++ proc) queued temps e' rest /\
+             env_ok (seen ++ fs) e' self /\
              (forall n, ~ In n (map f_name fs) -> eget e' n = eget e n).
 Proof.
-  induction fs as [|f r IH]; intros seen proc e self total b rest Hnsz Hord Hnd Henv Hty Hclosed Hser.
+  induction fs as [|f r IH]; intros seen proc queued temps e self total b rest post Hnsz Hord Hnd Henv Hty Hclosed Hquiet Hser.
   - cbn in Hser. injection Hser as <-. exists e. rewrite app_nil_r. split; [reflexivity | split; [exact Henv | reflexivity]].
   - rewrite ser_fields_cons in Hser.
     destruct (ser_field total self false f) as [bf| |] eqn:Hf; cbn [bind] in Hser; try discriminate.
@@ -1031,13 +1141,282 @@ Proof.
         rewrite map_app in Hnd. cbn [map] in Hnd. apply NoDup_remove_2 in Hnd. intros Heq. apply Hnd.
         apply in_or_app. left. rewrite Heq. now apply in_map.
       - rewrite eget_cons_eq. exact Hv. }
-    destruct (IH (seen ++ [f]) (f_name f :: proc) ((f_name f, v) :: e) self total br rest (fun g Hg => Hnsz g (or_intror Hg)) Hrest
+    destruct (IH (seen ++ [f]) (f_name f :: proc) queued temps ((f_name f, v) :: e) self total br rest post (fun g Hg => Hnsz g (or_intror Hg)) Hrest
                ltac:(rewrite <- app_assoc; exact Hnd) Henv' (fun g Hg => Hty g (or_intror Hg))
-               ltac:(destruct Hclosed as [Hc|Hc]; [now left | right; intros g Hg; apply Hc; now right]) Hr) as (e' & Hloop & Henv'' & Hkeep).
+               ltac:(destruct Hclosed as [Hc|Hc]; [now left | right; intros g Hg; apply Hc; now right])
+               (fun g Hg => Hquiet g (or_intror Hg)) Hr) as (e' & Hloop & Henv'' & Hkeep).
     exists e'. split; [|split; [rewrite <- app_assoc in Henv''; exact Henv''|]].
     2:{ intros n Hn. cbn [map] in Hn. rewrite Hkeep by (intros Hx; apply Hn; now right). apply eget_cons_neq. intros Heq. apply Hn. now left. }
-    rewrite (des_loop_step f r proc e _ (no_wait seen proc self f Htf Hdeps)).
-    rewrite <- app_assoc, Hload. cbn [bind fst snd]. exact Hloop.
+    cbn [app]. rewrite (des_loop_step f (r ++ post) proc queued temps e _ (no_wait seen proc self f Htf Hdeps) (Hquiet f (or_introl eq_refl))).
+    rewrite <- app_assoc, Hload. cbn [bind fst snd]. rewrite Hloop. cbn [map rev]. now rewrite <- app_assoc.
+Qed.
+
+(* ---- unions: arms waiting for a later member, read through a temporary buffer ---- *)
+(* codecs of integer aliases (the types of the arms), one level down *)
+Hypothesis alias_enc : forall t nm i cm z, lookup tm t = Some (DAlias nm (LInt i) cm) ->
+  enc_t R t (VInt z) = py_to_bytes (Z.to_nat (it_size i)) (negb (it_unsigned i)) z.
+Hypothesis alias_dec : forall t nm i cm z b rest, lookup tm t = Some (DAlias nm (LInt i) cm) -> it_unsigned i = true -> 0 < it_size i ->
+  py_to_bytes (Z.to_nat (it_size i)) false z = Ok b ->
+  dec_t R t (b ++ rest) = Ok (VInt z) /\ size_t R t (VInt z) = Ok (it_size i).
+
+Definition is_arm (ln : string) (w : Z) (f : field) : Prop :=
+  exists t y i ys, classify f = Some (MkArm t ln y i ys) /\ it_size i = w.
+Definition arm_const (f : field) : Z := match classify f with Some (MkArm _ _ y _ _) => y | _ => 0 end.
+
+(* arms whose constant differs from the condition value write nothing *)
+Lemma arms_ser_none ln w z self total : forall arms b,
+  (forall a, In a arms -> is_arm ln w a /\ member_typed self a) -> vget self ln = Some (VInt z) -> ~ In z (map arm_const arms) ->
+  ser_fields total self false arms = Ok b -> b = [].
+Proof.
+  induction arms as [|a r IH]; intros b Harms Hz Hnin Hser.
+  - cbn in Hser. now injection Hser as <-.
+  - rewrite ser_fields_cons in Hser.
+    destruct (ser_field total self false a) as [ba| |] eqn:Ha; cbn [bind] in Hser; try discriminate.
+    destruct (ser_fields total self false r) as [br| |] eqn:Hr; cbn [bind] in Hser; try discriminate. injection Hser as <-.
+    rewrite (IH br (fun x Hx => Harms x (or_intror Hx)) Hz (fun H => Hnin (or_intror H)) eq_refl), app_nil_r.
+    destruct (Harms a (or_introl eq_refl)) as [(t & y & i & ys & Hk & _) Hty].
+    assert (Hy : y <> z) by (intros ->; apply Hnin; left; unfold arm_const; now rewrite Hk).
+    unfold serialize_field in Ha. cbn [andb] in Ha. rewrite (arm_cond_self self a t ln y i ys z Hk Hz) in Ha.
+    replace (y =? z) with false in Ha by lia. cbn [bind negb] in Ha. now injection Ha as <-.
+Qed.
+
+(* exactly one arm is present: the bytes of the arms are one integer of the common width *)
+Lemma arms_ser_single ln w z self total : forall arms b,
+  (forall a, In a arms -> is_arm ln w a /\ member_typed self a) -> vget self ln = Some (VInt z) ->
+  In z (map arm_const arms) -> NoDup (map arm_const arms) ->
+  ser_fields total self false arms = Ok b -> exists x, py_to_bytes (Z.to_nat w) false x = Ok b.
+Proof.
+  induction arms as [|a r IH]; intros b Harms Hz Hin Hnd Hser; [contradiction|].
+  rewrite ser_fields_cons in Hser.
+  destruct (ser_field total self false a) as [ba| |] eqn:Ha; cbn [bind] in Hser; try discriminate.
+  destruct (ser_fields total self false r) as [br| |] eqn:Hr; cbn [bind] in Hser; try discriminate. injection Hser as <-.
+  cbn [map] in Hin, Hnd. inversion Hnd as [|? ? Hnin Hnd']; subst.
+  destruct (Harms a (or_introl eq_refl)) as [(t & y & i & ys & Hk & Hw) Hty].
+  assert (Hac : arm_const a = y) by (unfold arm_const; now rewrite Hk).
+  unfold serialize_field in Ha. cbn [andb] in Ha. rewrite (arm_cond_self self a t ln y i ys z Hk Hz) in Ha.
+  pose proof (classify_facts a _ Hk) as F. cbn [kind_facts] in F. destruct F as [F _]. apply arm_info_facts in F.
+  destruct F as (Hft & Hres & Hb & Hsf & Hu & Hpos & (nm & cm & Hl) & _).
+  destruct (Z.eq_dec y z) as [->|Hne].
+  - (* this arm is the present one, the others write nothing *)
+    rewrite (arms_ser_none ln w z self total r br (fun x Hx => Harms x (or_intror Hx)) Hz ltac:(rewrite <- Hac; exact Hnin) Hr), app_nil_r.
+    rewrite Z.eqb_refl in Ha. cbn [bind negb] in Ha. rewrite Hb, Hft, Hres in Ha.
+    unfold member_typed in Hty. rewrite Hk in Hty. destruct Hty as (v & z' & Hv & Hz' & _ & Harm). rewrite Hz in Hz'. injection Hz' as <-.
+    destruct Harm as [(_ & (x & ->) & _)|(Hne & _)]; [|contradiction]. unfold member_value in Ha. rewrite Hv in Ha. cbn [bind] in Ha.
+    rewrite (alias_enc t nm i cm x Hl), Hu, Hw in Ha. cbn [negb] in Ha. now exists x.
+  - replace (y =? z) with false in Ha by lia. cbn [bind negb] in Ha. injection Ha as <-. cbn [app].
+    apply (IH br (fun x Hx => Harms x (or_intror Hx)) Hz); [|exact Hnd'|reflexivity].
+    destruct Hin as [Hin|Hin]; [congruence|exact Hin].
+Qed.
+
+(* the arms after the first one only join the queue *)
+Lemma arms_queue ln w proc temps e buf : ~ In ln proc -> forall arms acc r,
+  (forall a, In a arms -> is_arm ln w a) ->
+  des_loop (arms ++ r) proc [(ln, acc)] temps e buf = des_loop r proc [(ln, acc ++ arms)] temps e buf.
+Proof.
+  intros Hproc. induction arms as [|a arms IH]; intros acc r Harms; [now rewrite app_nil_r|].
+  destruct (Harms a (or_introl eq_refl)) as (t & y & i & ys & Hk & _).
+  pose proof (classify_facts a _ Hk) as F. cbn [kind_facts] in F. destruct F as [F _]. apply arm_info_facts in F.
+  destruct F as (_ & _ & _ & _ & _ & _ & _ & c & cf & et & vs & bw & nm & Hc & Hl & _).
+  cbn [app deserialize_loop]. rewrite Hc, Hl.
+  replace (existsb (String.eqb ln) proc) with false.
+  2:{ symmetry. destruct (existsb (String.eqb ln) proc) eqn:Hex; [|reflexivity]. exfalso. apply Hproc.
+      apply existsb_exists in Hex as (x & Hx & He). apply String.eqb_eq in He. now subst. }
+  cbn [find fst snd map]. rewrite String.eqb_refl. cbn [fst snd].
+  rewrite (IH (acc ++ [a]) r (fun x Hx => Harms x (or_intror Hx))). now rewrite <- app_assoc.
+Qed.
+
+(* the first arm: dummy read of its type to learn the size of the arm, kept in a temporary buffer *)
+Lemma arm_first ln w proc e a r x b rest : ~ In ln proc -> is_arm ln w a ->
+  py_to_bytes (Z.to_nat w) false x = Ok b ->
+  des_loop (a :: r) proc [] [] e (b ++ rest) = des_loop r proc [(ln, [a])] [(ln, b)] e rest.
+Proof.
+  intros Hproc (t & y & i & ys & Hk & Hw) Hpy.
+  pose proof (classify_facts a _ Hk) as F. cbn [kind_facts] in F. destruct F as [F _]. apply arm_info_facts in F.
+  destruct F as (Hft & _ & _ & _ & Hu & Hpos & (nm & cm & Hl) & c & cf & et & vs & bw & nm' & Hc & Hlk & _).
+  cbn [deserialize_loop]. rewrite Hc, Hlk.
+  replace (existsb (String.eqb ln) proc) with false.
+  2:{ symmetry. destruct (existsb (String.eqb ln) proc) eqn:Hex; [|reflexivity]. exfalso. apply Hproc.
+      apply existsb_exists in Hex as (x0 & Hx & He). apply String.eqb_eq in He. now subst. }
+  cbn [find]. rewrite Hft. rewrite <- Hw in Hpy.
+  destruct (alias_dec t nm i cm x b rest Hl Hu Hpos Hpy) as [Hd Hs]. rewrite Hd. cbn [bind]. rewrite Hs. cbn [bind app].
+  pose proof (proj2 (py_int_roundtrip _ _ _ _ [] Hpy)) as Hlen.
+  replace (it_size i) with (Z.of_nat (length b)) by lia. now rewrite zfirstn_app, zskipn_app.
+Qed.
+
+(* once the condition member is known, the queued arms are read from the temporary buffer *)
+Lemma drain_rt ln z : forall arms seen e self total b,
+  NoDup (map f_name (seen ++ arms)) -> env_ok seen e self ->
+  (exists lk, In lk seen /\ f_name lk = ln /\ env_entry self lk = Some (VInt z)) -> vget self ln = Some (VInt z) ->
+  (forall a, In a arms -> (exists w, is_arm ln w a) /\ member_typed self a) ->
+  ser_fields total self false arms = Ok b ->
+  exists e', drain_queue OP tm R s allfs e arms b = Ok e' /\ env_ok (seen ++ arms) e' self /\
+             (forall n, ~ In n (map f_name arms) -> eget e' n = eget e n).
+Proof.
+  induction arms as [|a r IH]; intros seen e self total b Hnd Henv Hlk Hz Harms Hser.
+  - cbn in Hser. injection Hser as <-. exists e. rewrite app_nil_r. repeat split; [exact Henv].
+  - rewrite ser_fields_cons in Hser.
+    destruct (ser_field total self false a) as [ba| |] eqn:Ha; cbn [bind] in Hser; try discriminate.
+    destruct (ser_fields total self false r) as [br| |] eqn:Hr; cbn [bind] in Hser; try discriminate. injection Hser as <-.
+    destruct (Harms a (or_introl eq_refl)) as [(w & t & y & i & ys & Hk & Hw) Hty].
+    destruct Hlk as (lk & Hlin & Hlname & Hlentry).
+    assert (Hez : eget e ln = Some (VInt z)) by (rewrite <- Hlname, (Henv lk Hlin); exact Hlentry).
+    pose proof (member_ser_inv self total a ba Hty Ha) as Hsh.
+    pose proof (arm_cond_local e a t ln y i ys z Hk Hez) as Hcl.
+    pose proof (arm_cond_self self a t ln y i ys z Hk Hz) as Hcs.
+    pose proof (classify_facts a _ Hk) as F. cbn [kind_facts] in F. destruct F as [F _]. apply arm_info_facts in F.
+    destruct F as (Hft & _ & _ & Hsf & _).
+    assert (Hstep : exists v, des_field e a (ba ++ br) = Ok ((f_name a, v) :: e, br) /\ Some v = env_entry self a).
+    { unfold deserialize_field. rewrite Hcl.
+      destruct Hsh as [? ? Hft' | t' v Hft' Hcs' Hv Hnn Hadm Henc He _ | Hcs' Hbf Hv He _ | ? ? Hft' | ? ? ? ? Hk' | ? ? ? Hft' | ? ? ? Hk'];
+        try congruence.
+      - rewrite Hcs in Hcs'. injection Hcs' as ->. cbn [bind]. rewrite Hft in Hft'. injection Hft' as <-.
+        rewrite (named_load e a t v ba br br Hft Hadm Henc ltac:(now rewrite Hsf)). exists v. split; [reflexivity | now rewrite He].
+      - rewrite Hcs in Hcs'. injection Hcs' as ->. subst ba. cbn [bind app]. exists VNull. split; [reflexivity | now rewrite He]. }
+    destruct Hstep as (v & Hstep & Hv).
+    assert (Hnin : ~ In (f_name a) (map f_name seen)).
+    { rewrite map_app in Hnd. cbn [map] in Hnd. apply NoDup_remove_2 in Hnd. intros Hx. apply Hnd. apply in_or_app. now left. }
+    assert (Henv' : env_ok (seen ++ [a]) ((f_name a, v) :: e) self).
+    { intros g Hg. apply in_app_or in Hg as [Hg|[<-|[]]].
+      - rewrite eget_cons_neq; [now apply Henv|]. intros Heq. apply Hnin. rewrite Heq. now apply in_map.
+      - rewrite eget_cons_eq. exact Hv. }
+    destruct (IH (seen ++ [a]) ((f_name a, v) :: e) self total br ltac:(rewrite <- app_assoc; exact Hnd) Henv'
+                ltac:(exists lk; repeat split; [apply in_or_app; now left | assumption | assumption]) Hz (fun x Hx => Harms x (or_intror Hx)) Hr)
+      as (e' & Hdr & Henv'' & Hkeep).
+    exists e'. split; [|split; [rewrite <- app_assoc in Henv''; exact Henv''|]].
+    + cbn [drain_queue]. rewrite Hstep. cbn [bind fst snd]. exact Hdr.
+    + intros n Hn. cbn [map] in Hn. rewrite Hkeep by (intros Hx; apply Hn; now right). apply eget_cons_neq. intros Heq. apply Hn. now left.
+Qed.
+
+(* member lists: ordinary ones, or one union block (arms, members, the condition member) at the front followed by ordinary members *)
+Record union_ok (seen : list field) (proc : list string) (arms mid : list field) (lk : field) (post : list field) : Prop := {
+  uo_arms : arms <> [];
+  uo_width : exists w, forall a, In a arms -> is_arm (f_name lk) w a;
+  uo_consts : NoDup (map arm_const arms);
+  uo_all : forall a t y i ys, In a arms -> classify a = Some (MkArm t (f_name lk) y i ys) -> ys = map arm_const arms;
+  uo_fresh : ~ In (f_name lk) proc;
+  uo_mid : ordered seen proc mid;
+  uo_mid_closed : forall f, In f mid -> ~ fill_member f;
+  uo_link : exists et, classify lk = Some (MkNamed et);
+  uo_post : ordered (seen ++ arms ++ mid ++ [lk]) (f_name lk :: rev (map f_name mid) ++ proc) post
+}.
+
+Inductive lordered (seen : list field) (proc : list string) (fs : list field) : Prop :=
+| lo_plain : ordered seen proc fs -> lordered seen proc fs
+| lo_union arms mid lk post : fs = arms ++ mid ++ lk :: post -> union_ok seen proc arms mid lk post -> lordered seen proc fs.
+
+Lemma nodup_names_neq (l1 l2 : list field) f g : NoDup (map f_name (l1 ++ f :: l2)) -> In g (l1 ++ l2) -> f_name g <> f_name f.
+Proof.
+  intros Hnd Hg Heq. rewrite map_app in Hnd. cbn [map] in Hnd. apply NoDup_remove_2 in Hnd. apply Hnd. rewrite <- map_app, <- Heq. now apply in_map.
+Qed.
+
+Lemma nodup_app_l {A} (l1 l2 : list A) : NoDup (l1 ++ l2) -> NoDup l1.
+Proof. induction l1 as [|x l1 IH]; intros H; [constructor|]. cbn in H. inversion H as [|? ? Hn Hd]; subst. constructor; [|now apply IH]. intros Hx. apply Hn. apply in_or_app. now left. Qed.
+
+Lemma nodup_app_r {A} (l1 l2 : list A) : NoDup (l1 ++ l2) -> NoDup l2.
+Proof. induction l1 as [|x l1 IH]; intros H; [exact H|]. cbn in H. inversion H; subst. now apply IH. Qed.
+
+Lemma nodup_drop_mid {A} (l1 l2 l3 : list A) : NoDup (l1 ++ l2 ++ l3) -> NoDup (l1 ++ l3).
+Proof.
+  induction l1 as [|x l1 IH]; intros H; cbn [app] in *.
+  - now apply nodup_app_r in H.
+  - inversion H as [|? ? Hn Hd]; subst. constructor; [|now apply IH].
+    intros Hin. apply Hn. apply in_app_or in Hin as [Hin|Hin]; apply in_or_app; [now left | right; apply in_or_app; now right].
+Qed.
+
+Theorem fields_rt fs seen proc e self total b rest :
+  (forall f, In f fs -> not_size_member f) ->
+  lordered seen proc fs -> NoDup (map f_name (seen ++ fs)) ->
+  env_ok seen e self -> (forall f, In f fs -> member_typed self f) ->
+  (rest = [] \/ forall f, In f fs -> ~ fill_member f) ->
+  ser_fields total self false fs = Ok b ->
+  exists e', des_loop fs proc [] [] e (b ++ rest) = Ok (e', rest) /\ env_ok (seen ++ fs) e' self /\
+             (forall n, ~ In n (map f_name fs) -> eget e' n = eget e n).
+Proof.
+  intros Hnsz Hlo Hnd Henv Hty Hclosed Hser. destruct Hlo as [Hord|arms mid lk post -> U].
+  - destruct (loop_rt fs seen proc [] [] e self total b rest [] Hnsz Hord Hnd Henv Hty Hclosed (fun f _ => eq_refl) Hser) as (e' & Hloop & He' & Hkeep).
+    exists e'. rewrite app_nil_r in Hloop. split; [exact Hloop | split; assumption].
+  - destruct U as [Hne (w & Hw) Hconsts Hall Hfresh Hmid Hmidc (et & Hlk) Hpost].
+    set (ln := f_name lk) in *.
+    (* split the bytes *)
+    destruct (ser_fields_app OP tm R s allfs total self arms (mid ++ lk :: post) b Hser) as (ba & b1 & Hsa & Hs1 & ->).
+    destruct (ser_fields_app OP tm R s allfs total self mid (lk :: post) b1 Hs1) as (bm & b2 & Hsm & Hs2 & ->).
+    rewrite ser_fields_cons in Hs2.
+    destruct (ser_field total self false lk) as [bl| |] eqn:Hsl; cbn [bind] in Hs2; try discriminate.
+    destruct (ser_fields total self false post) as [bp| |] eqn:Hsp; cbn [bind] in Hs2; try discriminate. injection Hs2 as <-.
+    (* typing facts *)
+    assert (Hin_arms : forall a, In a arms -> In a (arms ++ mid ++ lk :: post)) by (intros; apply in_or_app; now left).
+    assert (Hin_mid : forall a, In a mid -> In a (arms ++ mid ++ lk :: post)) by (intros; apply in_or_app; right; apply in_or_app; now left).
+    assert (Hin_lk : In lk (arms ++ mid ++ lk :: post)) by (apply in_or_app; right; apply in_or_app; right; now left).
+    assert (Hin_post : forall a, In a post -> In a (arms ++ mid ++ lk :: post)) by (intros; apply in_or_app; right; apply in_or_app; right; now right).
+    pose proof (Hty lk Hin_lk) as Htlk. pose proof Htlk as Htlk'. unfold member_typed in Htlk'. rewrite Hlk in Htlk'. destruct Htlk' as (vl & Hvl & Hvlnn & Hvladm).
+    destruct arms as [|a1 arms']; [contradiction|].
+    destruct (Hw a1 (or_introl eq_refl)) as (t1 & y1 & i1 & ys1 & Hk1 & Hw1).
+    pose proof (Hty a1 (Hin_arms a1 (or_introl eq_refl))) as Ht1. pose proof Ht1 as Ht1'. unfold member_typed in Ht1'. rewrite Hk1 in Ht1'.
+    destruct Ht1' as (v1 & z & Hv1 & Hz & Hzin & _).
+    rewrite (Hall a1 t1 y1 i1 ys1 (or_introl eq_refl) Hk1) in Hzin.
+    assert (Harms_t : forall a, In a (a1 :: arms') -> is_arm ln w a /\ member_typed self a) by (intros a Ha; split; [now apply Hw | apply Hty, Hin_arms, Ha]).
+    destruct (arms_ser_single ln w z self total (a1 :: arms') ba Harms_t Hz Hzin Hconsts Hsa) as (x & Hpy).
+    (* 1. the arms: dummy read, queue *)
+    assert (Hstep1 : des_loop ((a1 :: arms') ++ mid ++ lk :: post) proc [] [] e ((ba ++ bm ++ bl ++ bp) ++ rest) =
+                     des_loop (mid ++ lk :: post) proc [(ln, a1 :: arms')] [(ln, ba)] e (bm ++ bl ++ bp ++ rest)).
+    { cbn [app]. rewrite <- !app_assoc. rewrite (arm_first ln w proc e a1 _ x ba _ Hfresh (Hw a1 (or_introl eq_refl)) Hpy).
+      now rewrite (arms_queue ln w proc [(ln, ba)] e _ Hfresh arms' [a1] _ (fun a Ha => Hw a (or_intror Ha))). }
+    (* names *)
+    assert (Hnd' : NoDup (map f_name (seen ++ mid ++ lk :: post))).
+    { pose proof Hnd as Hnd0. rewrite (map_app f_name seen), (map_app f_name (a1 :: arms')) in Hnd0. apply nodup_drop_mid in Hnd0. now rewrite <- map_app in Hnd0. }
+    assert (Hquiet_mid : queue_quiet [(ln, a1 :: arms')] mid).
+    { intros f Hf. cbn [find fst]. replace (String.eqb ln (f_name f)) with false; [reflexivity|]. symmetry. apply String.eqb_neq. intros Heq.
+      apply (nodup_names_neq (seen ++ mid) post lk f); [rewrite <- app_assoc; exact Hnd' | apply in_or_app; left; apply in_or_app; now right | now symmetry]. }
+    assert (Hquiet_post : queue_quiet [(ln, a1 :: arms')] post).
+    { intros f Hf. cbn [find fst]. replace (String.eqb ln (f_name f)) with false; [reflexivity|]. symmetry. apply String.eqb_neq. intros Heq.
+      apply (nodup_names_neq (seen ++ mid) post lk f); [rewrite <- app_assoc; exact Hnd' | apply in_or_app; now right | now symmetry]. }
+    (* 2. the members between the arms and the condition member *)
+    destruct (loop_rt mid seen proc [(ln, a1 :: arms')] [(ln, ba)] e self total bm (bl ++ bp ++ rest) (lk :: post)
+                (fun f Hf => Hnsz f (Hin_mid f Hf)) Hmid
+                ltac:(rewrite app_assoc in Hnd'; rewrite map_app in Hnd'; apply nodup_app_l in Hnd'; exact Hnd')
+                Henv (fun f Hf => Hty f (Hin_mid f Hf)) (or_intror Hmidc) Hquiet_mid Hsm) as (e1 & Hstep2 & Henv1 & Hkeep1).
+    (* 3. the condition member, then the queued arms from the temporary buffer *)
+    assert (Hdeps_lk : deps_ok (seen ++ mid) (rev (map f_name mid) ++ proc) lk) by (unfold deps_ok; now rewrite Hlk).
+    assert (Hnofill_lk : fill_member lk -> bp ++ rest = []) by (unfold fill_member; rewrite Hlk; contradiction).
+    destruct (member_step (seen ++ mid) (rev (map f_name mid) ++ proc) e1 self total lk bl (bp ++ rest) (Hnsz lk Hin_lk) Henv1 Htlk Hdeps_lk Hnofill_lk Hsl)
+      as (vl' & Hload_lk & Hvl').
+    assert (Hvl'' : vl' = VInt z) by (unfold env_entry in Hvl'; rewrite Hlk in Hvl'; fold ln in Hvl'; congruence).
+    subst vl'.
+    assert (Henv2 : env_ok ((seen ++ mid) ++ [lk]) ((ln, VInt z) :: e1) self).
+    { intros g Hg. apply in_app_or in Hg as [Hg|[<-|[]]].
+      - rewrite eget_cons_neq; [now apply Henv1|]. intros Heq.
+        apply (nodup_names_neq (seen ++ mid) post lk g); [rewrite <- app_assoc; exact Hnd' | apply in_or_app; now left | now symmetry].
+      - rewrite eget_cons_eq. unfold env_entry. rewrite Hlk. fold ln. now rewrite Hz. }
+    assert (Hnd_dr : NoDup (map f_name (((seen ++ mid) ++ [lk]) ++ a1 :: arms'))).
+    { assert (Hp : NoDup (map f_name (seen ++ (a1 :: arms') ++ mid ++ [lk]))).
+      { replace (seen ++ (a1 :: arms') ++ mid ++ lk :: post) with ((seen ++ (a1 :: arms') ++ mid ++ [lk]) ++ post) in Hnd by (now rewrite <- !app_assoc).
+        rewrite map_app in Hnd. now apply nodup_app_l in Hnd. }
+      assert (Hperm : Permutation (seen ++ (a1 :: arms') ++ mid ++ [lk]) (((seen ++ mid) ++ [lk]) ++ a1 :: arms')).
+      { rewrite <- !app_assoc. apply Permutation_app_head. rewrite (app_assoc mid). apply Permutation_app_comm. }
+      exact (Permutation_NoDup (Permutation_map f_name Hperm) Hp). }
+    destruct (drain_rt ln z (a1 :: arms') ((seen ++ mid) ++ [lk]) ((ln, VInt z) :: e1) self total ba Hnd_dr Henv2
+                ltac:(exists lk; repeat split; [apply in_or_app; right; now left | unfold env_entry; rewrite Hlk; fold ln; now rewrite Hz]) Hz
+                (fun a Ha => conj (ex_intro _ w (Hw a Ha)) (Hty a (Hin_arms a Ha))) Hsa) as (e2 & Hdrain & Henv3 & Hkeep3).
+    (* 4. the members after the block *)
+    assert (Henv3' : env_ok (seen ++ (a1 :: arms') ++ mid ++ [lk]) e2 self).
+    { intros g Hg. apply Henv3. apply in_app_or in Hg as [Hg|Hg]; [apply in_or_app; left; apply in_or_app; left; apply in_or_app; now left|].
+      apply in_app_or in Hg as [Hg|Hg]; [apply in_or_app; now right|].
+      apply in_app_or in Hg as [Hg|Hg]; apply in_or_app; left; [apply in_or_app; left; apply in_or_app; now right | apply in_or_app; now right]. }
+    destruct (loop_rt post (seen ++ (a1 :: arms') ++ mid ++ [lk]) (ln :: rev (map f_name mid) ++ proc) [(ln, a1 :: arms')] [(ln, ba)] e2 self total bp rest []
+                (fun f Hf => Hnsz f (Hin_post f Hf)) Hpost
+                ltac:(replace ((seen ++ (a1 :: arms') ++ mid ++ [lk]) ++ post) with (seen ++ (a1 :: arms') ++ mid ++ lk :: post) by (now rewrite <- !app_assoc); exact Hnd)
+                Henv3' (fun f Hf => Hty f (Hin_post f Hf))
+                ltac:(destruct Hclosed as [Hc|Hc]; [now left | right; intros g Hg; apply Hc, Hin_post, Hg]) Hquiet_post Hsp) as (e3 & Hstep4 & Henv4 & Hkeep4).
+    pose proof (classify_facts lk _ Hlk) as Flk. cbn [kind_facts] in Flk. destruct Flk as (Hc_lk & _).
+    exists e3. split; [|split].
+    + rewrite Hstep1, Hstep2. cbn [deserialize_loop]. rewrite Hc_lk, Hload_lk. cbn [bind fst snd find]. fold ln. rewrite String.eqb_refl. cbn [snd].
+      rewrite Hdrain. cbn [bind]. rewrite app_nil_r in Hstep4. rewrite Hstep4. reflexivity.
+    + intros g Hg. apply Henv4. rewrite <- !app_assoc. exact Hg.
+    + intros n Hn. rewrite !map_app in Hn. cbn [map] in Hn.
+      rewrite Hkeep4 by (intros Hx; apply Hn; apply in_or_app; right; apply in_or_app; right; now right).
+      rewrite Hkeep3 by (intros Hx; apply Hn; apply in_or_app; now left).
+      rewrite eget_cons_neq by (intros Heq; apply Hn; apply in_or_app; right; apply in_or_app; right; left; now symmetry).
+      apply Hkeep1. intros Hx. apply Hn. apply in_or_app; right; apply in_or_app; now left.
 Qed.
 
 Lemma size_fields_ok : forall fs self total b,
@@ -1109,6 +1488,7 @@ Proof.
   - split; [reflexivity|]. destruct Hty as (v & Hv & _). eauto.
   - split; [reflexivity|]. destruct Hty as (v & Hv & _). eauto.
   - split; [reflexivity|]. destruct Hty as (v & Hv & _). eauto.
+  - split; [reflexivity|]. destruct Hty as (v & z & Hv & _). eauto.
 Qed.
 
 End StructRT.
